@@ -1,3 +1,4 @@
 pub mod data;
+pub mod frames;
 pub mod framespec;
 pub mod refcfg;
